@@ -68,6 +68,7 @@ type Check struct {
 	replay   *Replay
 	replayed bool
 	worker   string // non-empty: this process is a worker for that part
+	partsLeft int   // > 0: parts still to come (for fair shares of the remaining budget)
 	only     string // non-empty: this process runs just that part for a parent check process ...
 	resOut   string // ... and writes its result there
 	sched    bool   // the part being explored needs a synctest bubble
@@ -145,6 +146,23 @@ func (k *Check) Budget(quick, thorough float64) {
 	k.deadline = k.start + b
 }
 
+// Parts announces how many parts the check is going to run: every part started without a
+// deadline of its own may then use at most an equal share of the budget that is left when it
+// starts (what an early part does not use is left for the later ones).
+func (k *Check) Parts(n int) { k.partsLeft = n }
+
+// share returns the deadline of the next part and counts it.
+func (k *Check) share(explicit float64) float64 {
+	d := explicit
+	if d == 0 && k.partsLeft > 1 {
+		d = k.Within(1 / float64(k.partsLeft))
+	}
+	if k.partsLeft > 0 {
+		k.partsLeft--
+	}
+	return d
+}
+
 // Within is the deadline for a part that may use at most frac of the budget that is left.
 func (k *Check) Within(frac float64) float64 {
 	now := mc.Wall()
@@ -220,6 +238,7 @@ func (k *Check) Explore(name string, cfg mc.Config, param any, body func(*mc.Ctx
 	if cfg.Workers == 0 {
 		cfg.Workers = k.Workers
 	}
+	cfg.Deadline = k.share(cfg.Deadline)
 	if cfg.Deadline == 0 {
 		cfg.Deadline = k.deadline
 	}
@@ -252,6 +271,7 @@ func (k *Check) ExploreProc(name string, cfg mc.Config, param any, body func(*mc
 		}
 		return &mc.Result{Name: name, Notes: map[string]int64{}}
 	}
+	cfg.Deadline = k.share(cfg.Deadline)
 	if cfg.Deadline == 0 {
 		cfg.Deadline = k.deadline
 	}
@@ -310,7 +330,7 @@ func (k *Check) companion(name string, cfg mc.Config) *mc.Result {
 	if bin == "" {
 		fatal("part %q needs the instrumented build but VERIF_SCHED_BIN is not set", name)
 	}
-	dl := cfg.Deadline
+	dl := k.share(cfg.Deadline)
 	if dl == 0 {
 		dl = k.deadline
 	}
